@@ -62,6 +62,11 @@ READER_PROV = [
     ("Tag::CodeBlock", "liwe::model::document::CodeBlock", "lang", "Tag::CodeBlock.0"),
 ]
 
+# string operations that cut, fold or rewrite a link destination (strip_suffix is the audited table-cell backslash of `[[a\\|b]]`)
+URL_CUTTERS = {"split_once", "rsplit_once", "split", "rsplit", "splitn", "rsplitn", "split_terminator", "trim", "trim_start", "trim_end", "trim_matches", "trim_start_matches",
+               "trim_end_matches", "strip_prefix", "replace", "replacen", "to_lowercase", "to_uppercase", "to_ascii_lowercase", "to_ascii_uppercase", "truncate", "drain", "split_off",
+               "get", "chars", "char_indices", "bytes", "find", "rfind", "pop", "remove", "retain", "parse", "join", "decode", "percent_decode_str"}
+
 # names of payload-struct fields that are positions / bookkeeping, not note content
 NONCONTENT = {"line_range", "inline_range", "attr", "id", "prev", "next", "child", "math_type", "metadata", "title", "relative_path"}
 
@@ -377,6 +382,15 @@ def rule_r1(facts, rep, rid="C01-R1"):
                                         b_ = c.binds.get(y["id"])
                                         if b_ and b_[0] == "expr":
                                             stack.append(b_[1])
+                if field == "url" and fe:
+                    # the destination is stored as the source has it: nothing is cut off, folded or replaced on the way (audited: the table-cell `\\` of a piped wiki link)
+                    cut = sorted(set(fb.last_seg(a[1]) for a in (c.vprov(fe[0]) | c.mentions(fe[0])) if a[0] == "call" and a[1] and fb.last_seg(a[1]) in URL_CUTTERS))
+                    k_v = "%s|arm:%s|%s.url|stored-verbatim" % (f.def_, vv, fb.last_seg(st))
+                    if cut:
+                        rep.violation(rid, k_v, "the destination is cut or rewritten on its way into the model (%s): the note no longer says where its link points (fragment / case / "
+                                      "prefix lost on formatting), and ranges computed from the stored url's length no longer match the source" % ", ".join(cut), loc(f, lits[0]))
+                    else:
+                        rep.ok(rid, k_v, "dest_url is stored as it is", loc(f, lits[0]))
                 if want_ids and used == want_ids:
                     rep.ok(rid, key, "%s.%s is derived from the tag's %s" % (fb.last_seg(st), field, src), loc(f, lits[0]))
                 else:
